@@ -2,9 +2,10 @@
 C07 — Expression identity is structural identity (sound hash-consing).
 Only property statements, their proofs' top level, and non-vacuity examples live here.
 Model: FAVerif/Models/HashCons.lean (port of Context._register_expression, Expr._compute_serialized,
-Expr._two_level_intkey, Type equality, and Python's ==/`is` on constant values).
+Expr._two_level_intkey, Type equality, and Python's ==/`is`/str on constant values), as of /repo ab6dc38
+(the constant key carries str(value), so 0.0 and -0.0 are distinct constants).
 
-FULL STATEMENT of the property (FALSE of the code as written, see `same_iff_struct_fails`):
+FULL STATEMENT of the property (still FALSE of the code as written, see `same_iff_struct_fails`):
 
     theorem same_iff_struct (ops) (i j) (ci cj) (a b)
         (ops[i]? = some ci) (ops[j]? = some cj)
@@ -12,11 +13,12 @@ FULL STATEMENT of the property (FALSE of the code as written, see `same_iff_stru
         a = b ↔ StrictStructEq ci cj
 
 where `StrictStructEq` compares constants by type name and exact content (sign of zero, NaN payload).
-It fails in both directions: `0.0` and `-0.0` are one expression (`neg_zero_alias`), two NaN objects of
-equal content are two expressions (`fresh_nan_split`).  What is proved instead:
-`same_iff_struct_partial` (all histories; value equality = the class of Python's `==` with the
-identity shortcut, plus the type name) and `same_iff_struct_plain` (the full statement for all
-histories whose constant values have no negative zero and no NaN component).
+It fails in the ← direction only: two NaN objects of equal content are two expressions
+(`fresh_nan_split`; duplication, never a wrong value).  What is proved instead:
+`same_iff_struct_partial` (all histories; constants identified by type name + exact content incl. the sign
+of zero, NaN-containing values by object identity) and `same_iff_struct_plain` (the full statement for all
+histories whose constant values have no NaN component).  `neg_zero_distinct_regression` records the
+repaired defect (before ab6dc38 the constant -0.0 was the expression of 0.0).
 -/
 import FAVerif.Lemmas.HashCons
 
@@ -60,28 +62,37 @@ same object, or `==` (exact numeric equality; NaN never equal). -/
 theorem value_class (v w : PyVal) : canon v = canon w ↔ (v = w ∨ pyEq v.data w.data = true) := by
   rw [canon_eq_iff]; simp [tupleEq]
 
-/-- `CodeStructEq` spelled out. -/
+/-- `CodeStructEq` spelled out: for constants the same type name, the same `str` (exact content
+with the sign of zero; 'nan' for NaNs) and the same object or `==`. -/
 theorem code_struct_eq_iff (c c' : Cand) :
     CodeStructEq c c' ↔
       match c, c' with
       | .sym n t, .sym n' t' => n = n' ∧ t = t'
-      | .const v l, .const v' l' => (v = v' ∨ pyEq v.data v'.data = true) ∧ v.tname = v'.tname ∧ l = l'
+      | .const v l, .const v' l' =>
+          (v = v' ∨ pyEq v.data v'.data = true) ∧ v.tname = v'.tname ∧ v.data.strRep = v'.data.strRep ∧ l = l'
       | .op k a, .op k' a' => k = k' ∧ a = a'
       | _, _ => False := by
   cases c <;> cases c' <;> simp [CodeStructEq, skel, value_class]
 
 /-- **same_iff_struct_partial**: in every history, two constructions return the same id iff they
-are structurally identical, where "same constant value" means: same `type(value).__name__` and
-same class of Python `==` with the identity shortcut (so `0.0`/`-0.0` coincide and NaN objects are
-told apart by identity). -/
+are structurally identical, where "same constant value" means: same `type(value).__name__`, same
+`str(value)` (exact content, sign of zero included) and same class of Python `==` with the identity
+shortcut (so NaN objects are told apart by identity; see `const_value_class_nan_free` for the
+NaN-free reading). -/
 theorem same_iff_struct_partial (ops : List Cand) (i j : Nat) (ci cj : Cand) (a b : Id)
     (hi : ops[i]? = some ci) (hj : ops[j]? = some cj) (ha : ret ops i = some a) (hb : ret ops j = some b) :
     a = b ↔ CodeStructEq ci cj :=
   same_iff_code ops i j ci cj a b hi hj ha hb
 
+/-- For NaN-free values (content in canonical form) the code's identification of constant values
+is exactly: same type name and same content, sign of zero included. -/
+theorem const_value_class_nan_free (v w : PyVal) (hv : v.Plain) (hw : w.Plain) :
+    (canon v = canon w ∧ v.tname = w.tname ∧ v.data.strRep = w.data.strRep) ↔ (v.tname = w.tname ∧ v.data = w.data) :=
+  plain_canon hv hw
+
 /-- **same_iff_struct_plain**: the FULL statement (constants compared by type and exact content,
-sign of zero included) for every history whose constant values are plain: representation matching
-the type name, no NaN component, no negative zero. -/
+sign of zero included) for every history whose constant values have no NaN component (negative
+zeros allowed). -/
 theorem same_iff_struct_plain (ops : List Cand) (hp : ∀ c ∈ ops, c.Plain) (i j : Nat) (ci cj : Cand) (a b : Id)
     (hi : ops[i]? = some ci) (hj : ops[j]? = some cj) (ha : ret ops i = some a) (hb : ret ops j = some b) :
     a = b ↔ StrictStructEq ci cj := by
@@ -134,14 +145,17 @@ def nzero : PyVal := { tid := 0, tname := "float", data := .flt (.fin true 0 0),
 def nanA : PyVal := { tid := 0, tname := "float", data := .flt (.nan false 0), oid := 3 }
 def nanB : PyVal := { tid := 0, tname := "float", data := .flt (.nan false 0), oid := 4 }
 
-/-- Negation witness 1 (aliasing): `x = symbol("x", float32); constant(0.0, x); constant(-0.0, x)`
-— the third construction returns the second's expression although the values differ in the sign
-of zero. -/
-theorem neg_zero_alias :
-    (run State.empty [symX, .const pzero 0, .const nzero 0]).2 = [.fresh 0, .fresh 1, .hit 1] ∧
+/-- Regression theorem for the defect repaired by /repo ab6dc38 (the key used to be
+`(value, type name)` and `0.0 == -0.0`): `x = symbol("x", float32); constant(0.0, x); constant(-0.0, x)`
+now gives two expressions, also for a zero component of a complex value. -/
+theorem neg_zero_distinct_regression :
+    (run State.empty [symX, .const pzero 0, .const nzero 0, .const pzero 0, .const nzero 0,
+        .const { tid := 1, tname := "complex", data := .cplx (.fin false 0 0) (.fin false 0 0), oid := 5 } 0,
+        .const { tid := 1, tname := "complex", data := .cplx (.fin false 0 0) (.fin true 0 0), oid := 6 } 0]).2
+      = [.fresh 0, .fresh 1, .fresh 2, .hit 1, .hit 2, .fresh 3, .fresh 4] ∧
     ¬ StrictStructEq (.const pzero 0) (.const nzero 0) := by decide
 
-/-- Negation witness 2 (duplication): two distinct NaN objects of identical type and content give
+/-- Negation witness (duplication): two distinct NaN objects of identical type and content give
 two expressions. -/
 theorem fresh_nan_split :
     (run State.empty [symX, .const nanA 0, .const nanB 0]).2 = [.fresh 0, .fresh 1, .fresh 2] ∧
@@ -151,19 +165,20 @@ theorem fresh_nan_split :
 theorem shared_nan_same :
     (run State.empty [symX, .const nanA 0, .const nanA 0]).2 = [.fresh 0, .fresh 1, .hit 1] := by decide
 
-/-- The full statement is false of the code as written. -/
+/-- The full statement is false of the code as written (← direction, NaN objects). -/
 theorem same_iff_struct_fails :
     ¬ (∀ (ops : List Cand) (i j : Nat) (ci cj : Cand) (a b : Id),
         ops[i]? = some ci → ops[j]? = some cj → ret ops i = some a → ret ops j = some b →
         (a = b ↔ StrictStructEq ci cj)) := by
   intro h
-  have := h [symX, .const pzero 0, .const nzero 0] 1 2 (.const pzero 0) (.const nzero 0) 1 1 rfl rfl
+  have := h [symX, .const nanA 0, .const nanB 0] 1 2 (.const nanA 0) (.const nanB 0) 1 2 rfl rfl
     (by decide) (by decide)
-  exact neg_zero_alias.2 (this.1 rfl)
+  exact absurd (this.2 fresh_nan_split.2) (by decide)
 
 /-- Python's `==` identifications made explicit: `0.0 == -0.0`, `1 == True == 1.0 == (1+0j)`,
-`2 == 2.0` (different dyadic forms), `nan != nan`, `"pi" == "pi"`, `1 != "1"`; and the type name
-keeps `1`, `True`, `1.0`, `numpy.float64(1)` apart as constants. -/
+`2 == 2.0` (different dyadic forms), `nan != nan`, `"pi" == "pi"`, `1 != "1"`; `str` tells the zeros
+apart and erases NaN sign/payload; and the type name keeps `1`, `True`, `1.0`, `numpy.float64(1)`
+apart as constants. -/
 theorem python_eq_facts :
     pyEq (.flt (.fin false 0 0)) (.flt (.fin true 0 0)) = true ∧
     pyEq (.int 1) (.flt (.fin false 1 0)) = true ∧
@@ -173,6 +188,9 @@ theorem python_eq_facts :
     pyEq (.str "pi") (.str "pi") = true ∧
     pyEq (.int 1) (.str "1") = false ∧
     pyEq (.int (-1)) (.int 1) = false ∧
+    PyData.strRep (.flt (.fin false 0 0)) ≠ PyData.strRep (.flt (.fin true 0 0)) ∧
+    PyData.strRep (.flt (.fin false 2 0)) = PyData.strRep (.flt (.fin false 1 1)) ∧
+    PyData.strRep (.flt (.nan true 5)) = PyData.strRep (.flt (.nan false 0)) ∧
     (run State.empty [symX,
         .const { tid := 1, tname := "int", data := .int 1, oid := 1 } 0,
         .const { tid := 2, tname := "bool", data := .int 1, oid := 2 } 0,
@@ -201,6 +219,9 @@ example : (run State.empty demo).2 =
      .fresh 7, .fresh 8, .fresh 9] := by decide
 
 example : ∀ c ∈ demo, c.Plain := by decide
+
+/-- negative zeros satisfy the hypothesis of `same_iff_struct_plain` -/
+example : (Cand.const nzero 0).Plain ∧ ¬ (Cand.const nanA 0).Plain := by decide
 
 example : TidConsistent demo := by
   intro v l v' l' h1 h2 _
